@@ -161,6 +161,42 @@ def h_fault(ex, dll, L, kind, fault, windows=(1, 1), nmax=None, timer=None):
     ex.witness()
 
 
+def h_hold_then_silent(ex, dll, nholds=1):
+    """the responder (scripted) clears one packet, sends hold CTS (0 packets) and then falls silent: the originator gives
+    the session up no later than 1.25 s after the last hold and tells the peer; the pair is usable again then"""
+    w = W.World(ex, mode='interleave')
+    sa = Stack(w, 'A', A, dll=dll, max_cmdt_packets=1)
+    fd = dll != 'j1939-21'
+    seg = 60 if fd else 7
+    L = 3 * seg
+    payload = sym_payload(ex, 'b', L)
+    pgn = 0xD000
+    w.run(until=T('1/100'))
+    ex.claim('accepted', sa.ca.send_pgn(0, 0xD0, B, 6, list(payload)) is True)
+    w.run(until=w.now + T('1/100'))
+
+    def cts(n, nxt):
+        if fd:
+            w.inject(sa.node, tp21.can_id(7, tp22.PF_CM, A, B), tp22.cm_frame(tp22.CTS, 0, 0xFFFFFF, nxt, n, 0, pgn), fd=True)
+        else:
+            w.inject(sa.node, tp21.can_id(7, 0xEC, A, B), tp21.cts(n, nxt, pgn))
+    cts(1, 1)
+    w.run(until=w.now + T('1/50'))
+    for _ in range(nholds):
+        cts(0, 0xFF if not fd else 0xFFFFFF)
+        t_hold = w.now
+        w.run(until=w.now + T('2/5'))
+    w.run(until=t_hold + Fraction(5, 4) + SLACK)
+    kinds = [(f,) + classify(f, dll) for f in w.log if f['src'] == 'A']
+    aborts = [f for f, kd, reason in kinds if kd == 'abort']
+    info = {'dll': dll, 'holds': nholds, 'aborts': len(aborts)}
+    ex.claim('hold.gives_up_within_timeout_after_the_last_hold', len(aborts) >= 1, info)
+    r2 = sa.ca.send_pgn(0, 0xD0, B, 6, [1] * (L + 1))
+    ex.claim('hold.pair_usable_after_the_timeout', r2 is True, info)
+    ex.claim('job_thread_alive', sa.alive())
+    ex.witness()
+
+
 def h_giveup_time(ex, dll, L, kind, fault, windows=(1, 1)):
     """the address pair is usable again no later than the timeout after the last frame: a new transfer
     submitted right after the give-up time is accepted (drop faults only)"""
@@ -232,6 +268,8 @@ def jobs(tier):
         for fault in ('drop', 'silentA', 'silentB'):
             J(dll=dll, L=seg * 3 - 1, kind='p2p', fault=fault, windows=[2, 2], timer='2')
         J(dll=dll, L=seg * 3 - 1, kind='bam', fault='drop', windows=[1, 1], timer='9/10')
+        J('h_hold_then_silent', dll=dll, nholds=1)
+        J('h_hold_then_silent', dll=dll, nholds=3)
         J(dll=dll, L=seg * 3 + 1, kind='p2p', fault='drop', windows=['sym', 'sym'])
         if not q:
             # both windows symbolic (1..255) for every fault kind and more sizes; mixed concrete windows; BAM give-up time
@@ -256,7 +294,7 @@ def meta(tier):
     return {
         'bounds': ['transfer shapes: BAM and RTS/CTS on both data link layers, sizes giving ' + ('{2,3,5}' if tier == 'quick' else '2..12') + ' packets / segments, windows 1, 2, 3, all (and both windows symbolic for ' + ('one size' if tier == 'quick' else '2, 3, 4, 5, 7 packets, all fault kinds; mixed windows; 20 and 40 packets') + ')',
                    'fault: index k of the lost bus frame, or index k from which originator / responder is silent: symbolic over all frames of the exchange (k beyond the last frame = fault-free run)',
-                   'payload bytes symbolic; interleavings of deliveries and job passes per DESIGN 3', 'with and without an unrelated periodic application timer (0.9 s / 2 s) on both ECUs',
+                   'payload bytes symbolic; interleavings of deliveries and job passes per DESIGN 3', 'with and without an unrelated periodic application timer (0.9 s / 2 s) on both ECUs', 'scripted responder that holds the connection (1 / 3 hold CTS) and then falls silent',
                    'follow-up transfer on the same pair after 8 s, and (h_giveup_time) immediately after the bus has been silent for the timeout (1.25 s; 3 s on J1939-22) + 8 ms slack'],
         'outside': ['more than one lost frame', 'sizes beyond ' + ('5' if tier == 'quick' else '12 packets (20 and 40 packets with windows 8 / 16 only)') + ' packets'],
         'assumptions': ['timestamps are macro times of the interleaving model (slack 5 ms + 2 ms)'],
